@@ -6,6 +6,8 @@ import PystogVerif.Model.Workflow
 Mathlib-free and polymorphic in the scalar type: the statements hold at `ℝ` (where C12's theorems live) and at `Float`
 (where the hand model is compared with the real `StoG`).  Proofs are by unfolding only.
 -/
+set_option linter.unusedSectionVars false
+set_option linter.unusedSimpArgs false
 namespace RefineWorkflow
 open StogRt GenStog
 variable {α : Type} [Add α] [Sub α] [Mul α] [Div α] [Neg α] [LT α] [LE α] [NatCast α]
@@ -37,4 +39,288 @@ theorem transform_merged_refines (g : GState α) (q sq : Vec α)
   rcases hr with h | h | h <;>
     simp [transform_merged, Dict.get, hq, hs, hl, h, Workflow.grCurve, Workflow.sToX, settingsOf, rsfIndex,
       Workflow.kwTransform, Kw.none, noJunk_eq]
+
+/-- what the filter primitive returns for the selected real-space function with the options `fourier_filter` builds -/
+def filtOut (g : GState α) (r gr q sq : Vec α) (c : α) :=
+  Workflow.filterX (rsfIndex g.real_space_function) (Workflow.kwFilter (settingsOf g)) r gr q sq c
+
+/-- the state after `fourier_filter` when the merged real-space curve `(r, gr)` is already stored -/
+def afterFilter (g : GState α) (r gr q sq : Vec α) (c : α) : GState α :=
+  let o := filtOut g r gr q sq c
+  let qft := Numpy.aroundV 2 o.1
+  let sqft := Numpy.aroundV 16 o.2.1
+  let q' := Numpy.aroundV 2 o.2.2.1
+  let sq' := Numpy.aroundV 16 o.2.2.2.1
+  let r' := o.2.2.2.2.1
+  let gr' := o.2.2.2.2.2.1
+  { g with q_master := (g.q_master.set "_ft_title" qft).set "sq_ft_title" q',
+           sq_master := (g.sq_master.set "_ft_title" sqft).set "sq_ft_title" sq',
+           r_master := g.r_master.set "gr_ft_title" r',
+           gr_master := g.gr_master.set "gr_ft_title" gr',
+           written := g.written ++ [⟨"ft.dat", qft, sqft⟩] ++ [⟨g.stem_name ++ "_ft.sq", q', sq'⟩] ++ [⟨g.stem_name ++ "_ft.gr", r', gr'⟩] }
+
+theorem fourier_filter_refines (g : GState α) (r gr q sq : Vec α) (c : α)
+    (hq : g.q_master "sq_title" = some q) (hs : g.sq_master "sq_title" = some sq)
+    (hr' : g.r_master "gr_title" = some r) (hg : g.gr_master "gr_title" = some gr)
+    (hc : g.fourier_filter_cutoff = some c) (hr : ValidRsf g) :
+    fourier_filter g = .ok (afterFilter g r gr q sq c,
+      (Numpy.aroundV 2 (filtOut g r gr q sq c).2.2.1, Numpy.aroundV 16 (filtOut g r gr q sq c).2.2.2.1,
+       (filtOut g r gr q sq c).2.2.2.2.1, (filtOut g r gr q sq c).2.2.2.2.2.1)) := by
+  rcases hr with h | h | h <;>
+    simp [fourier_filter, write_out_ft, write_out_ft_sq, write_out_ft_gr, writeOut, afterFilter, filtOut, Dict.get, Dict.contains,
+      Dict.set, reqNum, hq, hs, hr', hg, hc, h, Workflow.filterX, settingsOf, rsfIndex, Workflow.kwFilter, Kw.none, noJunk_eq]
+
+/-- the state after `transform_merged` -/
+def afterTransform (g : GState α) (q sq : Vec α) : GState α :=
+  { g with gr_master := g.gr_master.set "gr_title" (Workflow.grCurve (settingsOf g) { sq := (q, sq) }).2,
+           r_master := g.r_master.set "gr_title" (Workflow.grCurve (settingsOf g) { sq := (q, sq) }).1 }
+
+/-- `fourier_filter` before any transform: transforms first, then filters the curve it just stored -/
+theorem fourier_filter_refines_fresh (g : GState α) (q sq : Vec α) (c : α)
+    (hq : g.q_master "sq_title" = some q) (hs : g.sq_master "sq_title" = some sq)
+    (hg : g.gr_master "gr_title" = none) (hdr : g.dr ≠ [])
+    (hc : g.fourier_filter_cutoff = some c) (hr : ValidRsf g) :
+    fourier_filter g = fourier_filter (afterTransform g q sq) := by
+  have ht := transform_merged_refines g q sq hq hs hr hdr
+  have hr2 : ValidRsf (afterTransform g q sq) := hr
+  rw [fourier_filter_refines (afterTransform g q sq) (Workflow.grCurve (settingsOf g) { sq := (q, sq) }).1
+    (Workflow.grCurve (settingsOf g) { sq := (q, sq) }).2 q sq c hq hs (by simp [afterTransform]) (by simp [afterTransform]) hc hr2]
+  unfold fourier_filter
+  simp only [Dict.contains, hg, ht]
+  rcases hr with h | h | h <;>
+    simp [afterTransform, write_out_ft, write_out_ft_sq, write_out_ft_gr, writeOut, afterFilter, filtOut, Dict.get,
+      Dict.set, reqNum, hq, hs, hc, h, Workflow.filterX, settingsOf, rsfIndex, Workflow.kwFilter, Kw.none, noJunk_eq]
+
+def lorchOut (g : GState α) (q sq r : Vec α) :=
+  Workflow.sToX (rsfIndex g.real_space_function) (Workflow.kwLorch (settingsOf g)) q sq r
+
+def afterLorch (g : GState α) (q sq r : Vec α) : GState α :=
+  { g with gr_master := g.gr_master.set "gr_lorch_title" (lorchOut g q sq r).2.1,
+           r_master := g.r_master.set "gr_lorch_title" (lorchOut g q sq r).1,
+           written := g.written ++ [⟨g.stem_name ++ "_ft_lorched.gr", (lorchOut g q sq r).1, (lorchOut g q sq r).2.1⟩] }
+
+/-- `apply_lorch(q, sq, r)` -/
+theorem apply_lorch_refines (g : GState α) (q sq r : Vec α) (hr : ValidRsf g) :
+    apply_lorch g q sq r = .ok (afterLorch g q sq r, ((lorchOut g q sq r).1, (lorchOut g q sq r).2.1)) := by
+  unfold afterLorch lorchOut
+  rcases hr with h | h | h <;>
+    simp [apply_lorch, write_out_lorched_gr, writeOut, Dict.get, Dict.set, h, Workflow.sToX, settingsOf, rsfIndex,
+      Workflow.kwLorch, Kw.none, noJunk_eq]
+
+def keenFq (g : GState α) (q sq : Vec α) : Vec α := (Converter.S_to_FK (Workflow.kwKeen (settingsOf g)) Workflow.noJunk q sq none).1
+
+def afterKeenFq (g : GState α) (q sq : Vec α) : GState α :=
+  { g with sq_master := g.sq_master.set "fq_title" (keenFq g q sq), q_master := g.q_master.set "fq_title" q,
+           written := g.written ++ [⟨g.stem_name ++ "_rmc.fq", q, keenFq g q sq⟩] }
+
+/-- `_add_keen_fq(q, sq)` -/
+theorem add_keen_fq_refines (g : GState α) (q sq : Vec α) : _add_keen_fq g q sq = .ok (afterKeenFq g q sq) := by
+  unfold afterKeenFq keenFq
+  simp [_add_keen_fq, write_out_rmc_fq, writeOut, Dict.get, Dict.set, settingsOf, Workflow.kwKeen, Kw.none, noJunk_eq]
+
+/-- the Keen G(r) of a curve of the selected real-space function -/
+def keenGr (g : GState α) (r gr : Vec α) : Vec α :=
+  if rsfIndex g.real_space_function == 0 then (Converter.g_to_GK (Workflow.kwKeen (settingsOf g)) Workflow.noJunk r gr none).1
+  else if rsfIndex g.real_space_function == 1 then (Converter.G_to_GK (Workflow.kwKeen (settingsOf g)) Workflow.noJunk r gr none).1
+  else gr
+
+def afterKeenGr (g : GState α) (r gr : Vec α) : GState α :=
+  { g with gr_master := g.gr_master.set "GKofR_title" (keenGr g r gr), r_master := g.r_master.set "GKofR_title" r,
+           written := g.written ++ [⟨g.stem_name ++ "_rmc.gr", r, keenGr g r gr⟩] }
+
+/-- `_add_keen_gr(r, gr)` -/
+theorem add_keen_gr_refines (g : GState α) (r gr : Vec α) (hr : ValidRsf g) : _add_keen_gr g r gr = .ok (afterKeenGr g r gr) := by
+  unfold afterKeenGr
+  rcases hr with h | h | h <;>
+    simp [_add_keen_gr, write_out_rmc_gr, writeOut, Dict.get, Dict.set, h, keenGr, settingsOf, rsfIndex, Workflow.kwKeen,
+      Kw.none, noJunk_eq]
+
+/-! ### The master dictionaries seen as the hand model's state -/
+
+def curve (x y : Dict (Vec α)) (k : String) : Option (Workflow.Curve α) :=
+  match x k, y k with
+  | some a, some b => some (a, b)
+  | _, _ => none
+
+/-- abstraction: the named curves of the four dictionaries (`q`, `sq` = the merged S(Q), which every step reads) -/
+def abs (g : GState α) (q sq : Vec α) : Workflow.State α :=
+  { sq := (q, sq),
+    gr := curve g.r_master g.gr_master "gr_title",
+    ft := curve g.q_master g.sq_master "_ft_title",
+    sqFt := curve g.q_master g.sq_master "sq_ft_title",
+    grFt := curve g.r_master g.gr_master "gr_ft_title",
+    grLorch := curve g.r_master g.gr_master "gr_lorch_title",
+    fqKeen := curve g.q_master g.sq_master "fq_title",
+    gkKeen := curve g.r_master g.gr_master "GKofR_title" }
+
+/-- the settings do not change along the workflow -/
+theorem settingsOf_with (g g' : GState α) (h1 : g'.real_space_function = g.real_space_function) (h2 : g'.density = g.density)
+    (h3 : g'.bcoh_sqrd = g.bcoh_sqrd) (h4 : g'.low_q_correction = g.low_q_correction)
+    (h5 : g'.fourier_filter_cutoff = g.fourier_filter_cutoff) (h6 : g'.dr = g.dr) : settingsOf g' = settingsOf g := by
+  simp [settingsOf, h1, h2, h3, h4, h5, h6]
+
+/-- simulation, transform step -/
+theorem abs_transform_merged (g : GState α) (q sq : Vec α)
+    (hq : g.q_master "sq_title" = some q) (hs : g.sq_master "sq_title" = some sq) (hr : ValidRsf g) (hdr : g.dr ≠ []) :
+    ∃ g', transform_merged g = .ok g' ∧ abs g' q sq = Workflow.transformMerged (settingsOf g) (abs g q sq) ∧
+      settingsOf g' = settingsOf g ∧ g'.q_master "sq_title" = some q ∧ g'.sq_master "sq_title" = some sq := by
+  refine ⟨_, transform_merged_refines g q sq hq hs hr hdr, ?_, rfl, hq, hs⟩
+  simp [abs, curve, Workflow.transformMerged, Dict.set, Workflow.grCurve]
+
+/-- simulation, filter step (merged real-space curve stored) -/
+theorem abs_fourier_filter (g : GState α) (r gr q sq : Vec α) (c : α)
+    (hq : g.q_master "sq_title" = some q) (hs : g.sq_master "sq_title" = some sq)
+    (hr' : g.r_master "gr_title" = some r) (hg : g.gr_master "gr_title" = some gr)
+    (hc : g.fourier_filter_cutoff = some c) (hr : ValidRsf g) :
+    ∃ g' ret, fourier_filter g = .ok (g', ret) ∧ abs g' q sq = Workflow.fourierFilter (settingsOf g) (abs g q sq) ∧
+      settingsOf g' = settingsOf g := by
+  refine ⟨_, _, fourier_filter_refines g r gr q sq c hq hs hr' hg hc hr, ?_, rfl⟩
+  simp [abs, curve, afterFilter, filtOut, Workflow.fourierFilter, Workflow.filterCore, Dict.set, hr', hg, settingsOf, hc]
+
+/-! ### Simulation of arbitrary operation sequences -/
+
+/-- the two dictionaries of each space always hold the same titles -/
+def Aligned (g : GState α) : Prop :=
+  ∀ k, ((g.r_master k).isSome = (g.gr_master k).isSome) ∧ ((g.q_master k).isSome = (g.sq_master k).isSome)
+
+/-- what the workflow relies on: merged S(Q) stored, a valid real-space function, a non-empty r grid, a cutoff -/
+structure Inv (g : GState α) (q sq : Vec α) (c : α) : Prop where
+  hq : g.q_master "sq_title" = some q
+  hs : g.sq_master "sq_title" = some sq
+  hr : ValidRsf g
+  hdr : g.dr ≠ []
+  hc : g.fourier_filter_cutoff = some c
+  al : Aligned g
+
+/-- one workflow operation on the generated code, with the data arguments taken the way `cli.py` takes them -/
+def gstep (g : GState α) (q sq : Vec α) : Workflow.Op → Except Err (GState α)
+  | .transform => transform_merged g
+  | .filter => (fourier_filter g).map Prod.fst
+  | .lorch =>
+      let st := abs g q sq
+      (apply_lorch g (Workflow.curQS st).1 (Workflow.curQS st).2 (Workflow.curR (settingsOf g) st)).map Prod.fst
+  | .keenFq => let st := abs g q sq; _add_keen_fq g (Workflow.curQS st).1 (Workflow.curQS st).2
+  | .keenGr => match Workflow.curG (abs g q sq) with
+      | some c => _add_keen_gr g c.1 c.2
+      | none => .ok g
+
+theorem curve_none_iff (g : GState α) (h : Aligned g) (k : String) : curve g.r_master g.gr_master k = none ↔ g.gr_master k = none := by
+  have := (h k).1
+  unfold curve
+  cases h1 : g.r_master k <;> cases h2 : g.gr_master k <;> simp_all
+
+theorem aligned_of (g g' : GState α) (h : Aligned g)
+    (hr : ∀ k, (g'.r_master k).isSome = (g'.gr_master k).isSome ∨ (g'.r_master k = g.r_master k ∧ g'.gr_master k = g.gr_master k))
+    (hq : ∀ k, (g'.q_master k).isSome = (g'.sq_master k).isSome ∨ (g'.q_master k = g.q_master k ∧ g'.sq_master k = g.sq_master k)) :
+    Aligned g' := by
+  intro k
+  refine ⟨?_, ?_⟩
+  · rcases hr k with h1 | ⟨h1, h2⟩
+    · exact h1
+    · rw [h1, h2]; exact (h k).1
+  · rcases hq k with h1 | ⟨h1, h2⟩
+    · exact h1
+    · rw [h1, h2]; exact (h k).2
+
+/-- setting the same key in both dictionaries of a pair keeps them aligned -/
+theorem set_pair {β : Type} (a b : Dict β) (k0 : String) (v w : β) (k : String) :
+    ((a.set k0 v) k).isSome = ((b.set k0 w) k).isSome ∨ ((a.set k0 v) k = a k ∧ (b.set k0 w) k = b k) := by
+  by_cases hk : k = k0
+  · left; subst hk; simp [Dict.set]
+  · right; simp [Dict.set, hk]
+
+theorem aligned_filter (g : GState α) (r gr q sq : Vec α) (c : α) (al : Aligned g) : Aligned (afterFilter g r gr q sq c) := by
+  intro k
+  have h := al k
+  refine ⟨?_, ?_⟩
+  · by_cases hk : k = "gr_ft_title"
+    · subst hk; simp [afterFilter, Dict.set]
+    · simp [afterFilter, Dict.set, hk, h.1]
+  · by_cases hk : k = "sq_ft_title"
+    · subst hk; simp [afterFilter, Dict.set]
+    · by_cases hk2 : k = "_ft_title"
+      · subst hk2; simp [afterFilter, Dict.set]
+      · simp [afterFilter, Dict.set, hk, hk2, h.2]
+
+/-- every operation succeeds on a state satisfying `Inv`, keeps `Inv`, and its effect on the named curves is the hand model's step -/
+theorem gstep_simulates (g : GState α) (q sq : Vec α) (c : α) (h : Inv g q sq c) (op : Workflow.Op) :
+    ∃ g', gstep g q sq op = .ok g' ∧ abs g' q sq = Workflow.step (settingsOf g) (abs g q sq) op ∧
+      settingsOf g' = settingsOf g ∧ Inv g' q sq c := by
+  obtain ⟨hq, hs, hr, hdr, hc, al⟩ := h
+  cases op with
+  | transform =>
+    refine ⟨afterTransform g q sq, transform_merged_refines g q sq hq hs hr hdr, ?_, rfl, ⟨hq, hs, hr, hdr, hc, ?_⟩⟩
+    · simp [abs, curve, afterTransform, Workflow.step, Workflow.transformMerged, Dict.set, Workflow.grCurve]
+    · exact aligned_of g _ al (fun k => set_pair _ _ _ _ _ k) (fun k => Or.inr ⟨rfl, rfl⟩)
+  | filter =>
+    cases hg : g.gr_master "gr_title" with
+    | some gr =>
+      have hsome : (g.r_master "gr_title").isSome = true := by rw [(al "gr_title").1, hg]; rfl
+      obtain ⟨r, hr'⟩ := Option.isSome_iff_exists.mp hsome
+      refine ⟨afterFilter g r gr q sq c, ?_, ?_, rfl, ⟨?_, ?_, hr, hdr, hc, ?_⟩⟩
+      · simp [gstep, fourier_filter_refines g r gr q sq c hq hs hr' hg hc hr, Except.map]
+      · simp [abs, curve, afterFilter, filtOut, Workflow.step, Workflow.fourierFilter, Workflow.filterCore, Dict.set, hr', hg,
+          settingsOf, hc]
+      · simp [afterFilter, Dict.set, hq]
+      · simp [afterFilter, Dict.set, hs]
+      · exact aligned_filter g r gr q sq c al
+    | none =>
+      have hr2 : ValidRsf (afterTransform g q sq) := hr
+      have hf := fourier_filter_refines (afterTransform g q sq) (Workflow.grCurve (settingsOf g) { sq := (q, sq) }).1
+        (Workflow.grCurve (settingsOf g) { sq := (q, sq) }).2 q sq c hq hs (by simp [afterTransform]) (by simp [afterTransform]) hc hr2
+      have hgr : (abs g q sq).gr = none := by
+        simp only [abs]; exact (curve_none_iff g al "gr_title").mpr hg
+      refine ⟨afterFilter (afterTransform g q sq) (Workflow.grCurve (settingsOf g) { sq := (q, sq) }).1
+        (Workflow.grCurve (settingsOf g) { sq := (q, sq) }).2 q sq c, ?_, ?_, rfl, ⟨?_, ?_, hr, hdr, hc, ?_⟩⟩
+      · simp [gstep, fourier_filter_refines_fresh g q sq c hq hs hg hdr hc hr, hf, Except.map]
+      · simp only [Workflow.step, Workflow.fourierFilter, hgr]
+        simp [abs, curve, afterFilter, afterTransform, filtOut, Workflow.filterCore, Workflow.transformMerged, Dict.set,
+          settingsOf, hc, Workflow.grCurve]
+      · simp [afterFilter, afterTransform, Dict.set, hq]
+      · simp [afterFilter, afterTransform, Dict.set, hs]
+      · exact aligned_filter _ _ _ q sq c (aligned_of g _ al (fun k => set_pair _ _ _ _ _ k) (fun k => Or.inr ⟨rfl, rfl⟩))
+  | lorch =>
+    refine ⟨afterLorch g (Workflow.curQS (abs g q sq)).1 (Workflow.curQS (abs g q sq)).2 (Workflow.curR (settingsOf g) (abs g q sq)),
+      ?_, ?_, rfl, ⟨?_, ?_, hr, hdr, hc, ?_⟩⟩
+    · simp only [gstep, apply_lorch_refines g _ _ _ hr, Except.map]
+    · simp [abs, curve, afterLorch, lorchOut, Workflow.step, Workflow.applyLorch, Dict.set, settingsOf]
+    · simp [afterLorch, Dict.set, hq]
+    · simp [afterLorch, Dict.set, hs]
+    · exact aligned_of g _ al (fun k => set_pair _ _ _ _ _ k) (fun k => Or.inr ⟨rfl, rfl⟩)
+  | keenFq =>
+    refine ⟨afterKeenFq g (Workflow.curQS (abs g q sq)).1 (Workflow.curQS (abs g q sq)).2, ?_, ?_, rfl, ⟨?_, ?_, hr, hdr, hc, ?_⟩⟩
+    · simp only [gstep, add_keen_fq_refines]
+    · simp [abs, curve, afterKeenFq, keenFq, Workflow.step, Workflow.addKeenFq, Dict.set, settingsOf]
+    · simp [afterKeenFq, Dict.set, hq]
+    · simp [afterKeenFq, Dict.set, hs]
+    · exact aligned_of g _ al (fun k => Or.inr ⟨rfl, rfl⟩) (fun k => set_pair _ _ _ _ _ k)
+  | keenGr =>
+    cases hcg : Workflow.curG (abs g q sq) with
+    | none => exact ⟨g, by simp [gstep, hcg], by simp [Workflow.step, hcg], rfl, ⟨hq, hs, hr, hdr, hc, al⟩⟩
+    | some cv =>
+      refine ⟨afterKeenGr g cv.1 cv.2, ?_, ?_, rfl, ⟨?_, ?_, hr, hdr, hc, ?_⟩⟩
+      · simp only [gstep, hcg, add_keen_gr_refines g _ _ hr]
+      · simp only [Workflow.step, hcg]
+        simp [abs, curve, afterKeenGr, Workflow.addKeenGr, keenGr, Dict.set, settingsOf]
+      · simp [afterKeenGr, Dict.set, hq]
+      · simp [afterKeenGr, Dict.set, hs]
+      · exact aligned_of g _ al (fun k => set_pair _ _ _ _ _ k) (fun k => Or.inr ⟨rfl, rfl⟩)
+
+/-- a sequence of operations on the generated code -/
+def grun (g : GState α) (q sq : Vec α) : List Workflow.Op → Except Err (GState α)
+  | [] => .ok g
+  | op :: ops => gstep g q sq op >>= fun g' => grun g' q sq ops
+
+/-- **Refinement of the workflow**: on every state satisfying `Inv`, every sequence of operations of the code generated from
+    stog.py succeeds and leaves exactly the named curves that the hand-written state machine `Workflow.run` computes -/
+theorem grun_simulates (ops : List Workflow.Op) (g : GState α) (q sq : Vec α) (c : α) (h : Inv g q sq c) :
+    ∃ g', grun g q sq ops = .ok g' ∧ abs g' q sq = Workflow.run (settingsOf g) (abs g q sq) ops ∧ Inv g' q sq c := by
+  induction ops generalizing g with
+  | nil => exact ⟨g, rfl, rfl, h⟩
+  | cons op t ih =>
+    obtain ⟨g₁, h1, h2, h3, h4⟩ := gstep_simulates g q sq c h op
+    obtain ⟨g₂, k1, k2, k3⟩ := ih g₁ h4
+    refine ⟨g₂, by simp [grun, h1, k1], ?_, k3⟩
+    simp only [Workflow.run, List.foldl_cons] at k2 ⊢
+    rw [k2, h2, h3]
 end RefineWorkflow
